@@ -415,6 +415,70 @@ func suiteDaemon(h *H) {
 			h.stat("daemon.config")
 		}
 	}
+	// ---- the configuration as the daemon binary loads it (FromFile), with a drop-in directory next to the file: whatever
+	// the loader picks up, a module is writable only if its own table says so
+	if h.extra == nil {
+		for i := 0; i < h.n(6, 60); i++ {
+			cdir := filepath.Join(base, fmt.Sprintf("cfgfile%d", i))
+			mainFile := filepath.Join(cdir, "gokr-rsyncd.toml")
+			os.MkdirAll(mainFile+".d", 0o755)
+			type dmodS struct {
+				name     string
+				writable int
+			}
+			want := map[string]int{}
+			writeMods := func(fn string, pre string, ms []dmodS) {
+				var b strings.Builder
+				b.WriteString(pre)
+				for _, m := range ms {
+					fmt.Fprintf(&b, "\n[[module]]\nname = %q\npath = %q\n", m.name, filepath.Join(cdir, "data", m.name))
+					if m.writable >= 0 {
+						fmt.Fprintf(&b, "writable = %v\n", m.writable == 1)
+					}
+					want[m.name] = m.writable
+				}
+				os.WriteFile(fn, []byte(b.String()), 0o644)
+			}
+			writeMods(mainFile, "[[listener]]\nrsyncd = \"localhost:0\"\n", []dmodS{{"main0", h.pick(-1, 0, 1)}})
+			nsn := 2 + h.rng.Intn(3)
+			for k := 0; k < nsn; k++ {
+				var ms []dmodS
+				for j := 0; j < 1+h.rng.Intn(2); j++ {
+					w := h.pick(-1, -1, 0, 1, 1)
+					if k == 0 {
+						w = 1
+					} else if k == 1 {
+						w = -1
+					}
+					ms = append(ms, dmodS{fmt.Sprintf("s%dm%d", k, j), w})
+				}
+				writeMods(filepath.Join(mainFile+".d", fmt.Sprintf("%d0-snip.toml", k+1)), "", ms)
+			}
+			cfg, err := rsyncdconfig.FromFile(mainFile)
+			outc, v := "ok", ""
+			if err != nil {
+				outc = "err"
+			} else {
+				seen := 0
+				for _, m := range cfg.Modules {
+					w, known := want[m.Name]
+					if !known {
+						v = fmt.Sprintf("FAIL[C07] the loader produced a module %q that no file declares", m.Name)
+						continue
+					}
+					seen++
+					if m.Writable != (w == 1) {
+						v = fmt.Sprintf("FAIL[C07] module %q %s in its own table, the loaded configuration has writable=%v (files: main + %d drop-ins)", m.Name,
+							map[int]string{-1: "has no writable key", 0: "says writable = false", 1: "says writable = true"}[w], m.Writable, nsn)
+					}
+				}
+				outc = fmt.Sprintf("ok modules=%d", seen)
+			}
+			h.emit(fmt.Sprintf("!config-dropin seed=%d case=%d snippets=%d", h.seed, i, nsn), strings.SplitN(outc, " ", 2)[0], v, true)
+			h.stat("daemon.config-dropin")
+			os.RemoveAll(cdir)
+		}
+	}
 	out := filepath.Join(base, "outside")
 	mk := func(p string, data string) {
 		os.MkdirAll(filepath.Dir(p), 0o755)
@@ -447,6 +511,15 @@ func suiteDaemon(h *H) {
 		os.Symlink("..", filepath.Join(dir, "lpar")) // exactly the directory that holds the module
 		os.Symlink("sub", filepath.Join(dir, "lin"))
 		os.Symlink("../../../outside/cdir", filepath.Join(dir, "sub", "deep", "lcd"))
+		// link targets that end in a slash and name another link (os.Root of Go 1.25 follows these in the last position)
+		os.Symlink("labs/", filepath.Join(dir, "lsl"))
+		os.Symlink("lout/", filepath.Join(dir, "lsl2"))
+		os.Symlink("lup/", filepath.Join(dir, "sub", "lsl3"))
+		os.Symlink("lin/", filepath.Join(dir, "lsl4"))
+		// absolute links whose target text lies inside the module but passes through a link that leaves it
+		os.Symlink(filepath.Join(dir, "lout"), filepath.Join(dir, "labsin"))
+		os.Symlink(filepath.Join(dir, "sub", "deep", "lcd"), filepath.Join(dir, "labsin2"))
+		os.Symlink(filepath.Join(dir, "sub"), filepath.Join(dir, "labsok"))
 	}
 	for _, m := range []string{"ro", "rw", "m", "mx", "shared"} {
 		populate(filepath.Join(mods, m))
@@ -513,7 +586,7 @@ func suiteDaemon(h *H) {
 		"sub/../..", "sub/../../outside/", "//../", "/..", "./../", "lout", "lout/", "lout/" + canaryName, "lout/cdir/", "labs", "labs/", "labs/" + canaryName, "lfile", "lin", "lin/",
 		"lin/deep/lcd/", "sub/lup", "sub/lup/", "sub/lup/outside/", "sub/deep/lcd/", "sub/deep/lcd/" + canaryName + "-2", out, out + "/", "/" + strings.TrimPrefix(out, "/") + "/", "/etc/", "x", "x/../../outside/", "sub//inner.txt", "./sub/./deep/", "sub/deep/../../../outside/",
 		// repeated and mixed trailing separators behind a link in the last position, and a link reached through ".."
-		"lout//", "lout///", "labs//", "lout/./", "lout//.", "sub/../lout//", "sub/../labs//", "sub/deep/lcd//", "sub/lup//", "lin//", "lout//cdir//", "./lout//", "sub//", "sub/deep//"}
+		"labsin/", "labsin", "labsin2/", "labsok/", "labsin/cdir/", "lsl", "lsl/", "lsl2/", "lsl2", "sub/lsl3/", "lsl4/", "lsl/cdir/", "lsl//", "lout//", "lout///", "labs//", "lout/./", "lout//.", "sub/../lout//", "sub/../labs//", "sub/deep/lcd//", "sub/lup//", "lin//", "lout//cdir//", "./lout//", "sub//", "sub/deep//"}
 	pullCase := func(module, req string, os_ optset, extraArg string) {
 		args := []string{"--server", "--sender", os_.flags}
 		if extraArg != "" {
@@ -837,7 +910,7 @@ func suiteDaemon(h *H) {
 		pushCase("rw", target, []string{"-nr", "--delete"}, "")
 	}
 	// subdirectory arguments of a writable upload that try to leave the module (C05)
-	for _, target := range []string{"lpar/", "lpar", "lpar/newp/", "lout/", "labs/", "lout", "sub/lup/", "sub/deep/lcd/", "lout//", "lin/", "../outside/new/", "sub/../../outside/new2/", "lout/new3/", "labs/new4/", "sub/lup/outside/new5/", "../", "..", "/../outside/new6/", "lfile/", "sub/deep/lcd/new7/", "lin/../../../outside/new8/"} {
+	for _, target := range []string{"labsin/", "labsin2/", "labsok/", "lsl/", "lsl", "lsl2/", "sub/lsl3/", "lsl4/", "lsl/newq/", "lpar/", "lpar", "lpar/newp/", "lout/", "labs/", "lout", "sub/lup/", "sub/deep/lcd/", "lout//", "lin/", "../outside/new/", "sub/../../outside/new2/", "lout/new3/", "labs/new4/", "sub/lup/outside/new5/", "../", "..", "/../outside/new6/", "lfile/", "sub/deep/lcd/new7/", "lin/../../../outside/new8/"} {
 		for _, fl := range flagSets[:2] {
 			pushCase("rw", target, fl, "")
 		}
